@@ -674,6 +674,40 @@ def _root_field(t):
     return t if _is_field(t) else None
 
 
+def _named_items(prog, mod, v):
+    """<field>.name, for a record type (namedtuple / NamedTuple class) declared in the module whose fields include `name`, is item i
+    of the field: the cached bounds kept as a named pair read the same as the plain pair"""
+    names = {}
+    clash = set()
+    for nm, e in mod.assigns.items():
+        if isinstance(e, ast.Call) and (call_name(e) or "").split(".")[-1] == "namedtuple" and len(e.args) >= 2:
+            fl = prog.try_fold(e.args[1], mod, default=None)
+            if isinstance(fl, str):
+                fl = fl.replace(",", " ").split()
+            for i, f_ in enumerate(fl or ()):
+                if names.get(f_, i) != i:
+                    clash.add(f_)
+                names[f_] = i
+    for ci in prog.classes.values():
+        if ci.module is mod and any("NamedTuple" in b for b in ci.ext_bases):
+            fl = [n.target.id for n in ci.node.body if isinstance(n, ast.AnnAssign) and isinstance(n.target, ast.Name)]
+            for i, f_ in enumerate(fl):
+                if names.get(f_, i) != i:
+                    clash.add(f_)
+                names[f_] = i
+    names = {k: i for k, i in names.items() if k not in clash}
+    if not names:
+        return v
+
+    def rw(x):
+        if isinstance(x, tuple):
+            if len(x) == 3 and x[0] == "attr" and x[2] in names and _is_field(x[1]):
+                return ("item", rw(x[1]), names[x[2]])
+            return tuple(rw(y) for y in x)
+        return x
+    return rw(v)
+
+
 def chunk_cache_model(ctx, fi=None):
     """The one-chunk cache of integer indexing, discovered from the normal form of _read_at_index: results of the form V[I - S]
     where V is a field (of the channel or of a helper object it keeps in a field).  -> dict(hits=[(conds, V, I, S)], V=, owner=class
@@ -685,7 +719,7 @@ def chunk_cache_model(ctx, fi=None):
     fi = fi or prog.func("tdms.TdmsChannel._read_at_index")
     if getattr(ctx, "_cache_model", None) is not None and ctx._cache_model[0] is fi:
         return ctx._cache_model[1]
-    v = norm_items(Sym(prog, fi, fi.cls).function_value())
+    v = _named_items(prog, fi.module, norm_items(Sym(prog, fi, fi.cls).function_value()))
     if v[0] == "opaque":
         raise AnchorMissing("tdms.TdmsChannel._read_at_index: body in normal form")
     hits = []
@@ -742,7 +776,7 @@ def chunk_cache_model(ctx, fi=None):
         for n in cfg.where(lambda n: n.kind == "return" and n.ast.value is not None):
             if n in after:
                 env, _g = sy.env_at(n.ast)
-                rv = norm_items(sy.expr(n.ast.value, env))
+                rv = _named_items(prog, fi.module, norm_items(sy.expr(n.ast.value, env)))
                 if rv[0] == "sub" and rv[1] == V:
                     refilled = True
     model = dict(hits=out_hits, V=V, owner=owner, prefix=prefix, state=state, value=v, fi=fi, refilled=refilled)
